@@ -44,7 +44,7 @@ def gen_history(rng):
     steps = []
     for i in range(n):
         oc = rng.choice(OUTCOMES)
-        steps.append({"outcome": oc, "overlap_probe": oc == "blocked" and rng.random() < 0.7})
+        steps.append({"outcome": oc, "overlap_probe": oc == "blocked" and rng.random() < 0.7, "probes": rng.choice((1, 1, 2, 3))})
     return steps
 
 
@@ -108,9 +108,9 @@ def run_history(res: Result, gw, steps, label, hid, main_ident=None):
         if oc.startswith("timed"):
             oc = "timed"
         if oc in ("blocked", "timed"):
-            if st["overlap_probe"]:
-                # a submission while this body is still running must be refused with the documented text ...
-                probe = gw.remote_exec(body_for(tag + 50, "return", main_ident))
+            for pn in range(st.get("probes", 1) if st["overlap_probe"] and oc == "blocked" else (1 if st["overlap_probe"] else 0)):
+                # a submission while this body is still running must be refused with the documented text ... (every one of them)
+                probe = gw.remote_exec(body_for(tag + 50 + pn, "return", main_ident))
                 t0 = time.monotonic()
                 try:
                     got = probe.receive(15)
